@@ -78,7 +78,7 @@ def _check_las(las, xs, cols, names, sel, tol, stop_key, step_key, xs_well=None,
 
 # ---------------------------------------------------------------------------------------------------- RP66V1
 
-def _rp66(order, kind, a, b, c, m1, m2):
+def _rp66(order, kind, a, b, c, m1, m2, again=False):
     import C04_frames as H4
     from TotalDepth.RP66V1 import ToLAS
     o = H4.ORDERS[order]
@@ -94,13 +94,24 @@ def _rp66(order, kind, a, b, c, m1, m2):
         chans = set()
         if not (m1 and m2):
             chans = {n for n, m in (('AAAA', m1), ('BBBB', m2)) if m}
-        res = ToLAS.single_rp66v1_file_to_las(pin, 'first', os.path.join(tmp, 'out', 'x'), _selector(kind, a, b, c), set(chans), 16, '.3f')
-        mark.hit()
-        if res.exception or res.ignored:
-            return False
-        outs = sorted(os.listdir(os.path.join(tmp, 'out')))
         ntypes = 2 if 1 in o else 1
-        if len(outs) != ntypes or res.las_count != ntypes:
+        if again:
+            # the same index converted twice: every frame first, then the selection (one index serves several conversions)
+            from TotalDepth.RP66V1.core import LogicalFile
+            from TotalDepth.common import Slice as CS
+            with LogicalFile.LogicalIndex(pin) as li:
+                ToLAS.write_logical_index_to_las(li, 'first', os.path.join(tmp, 'out0', 'x'), CS.Slice(), set(), 16, '.3f')
+                written = ToLAS.write_logical_index_to_las(li, 'first', os.path.join(tmp, 'out', 'x'), _selector(kind, a, b, c), set(chans), 16, '.3f')
+            mark.hit()
+            if len(written) != ntypes:
+                return False
+        else:
+            res = ToLAS.single_rp66v1_file_to_las(pin, 'first', os.path.join(tmp, 'out', 'x'), _selector(kind, a, b, c), set(chans), 16, '.3f')
+            mark.hit()
+            if res.exception or res.ignored or res.las_count != ntypes:
+                return False
+        outs = sorted(os.listdir(os.path.join(tmp, 'out')))
+        if len(outs) != ntypes:
             return False
         for ftype in range(ntypes):
             frames = model[ftype]
@@ -125,7 +136,7 @@ def _rp66(order, kind, a, b, c, m1, m2):
         shutil.rmtree(tmp, ignore_errors=True)
 
 
-def rp66v1_to_las(order: int, kind: int, a: int, b: int, c: int, m1: bool, m2: bool) -> bool:
+def rp66v1_to_las(order: int, kind: int, a: int, b: int, c: int, m1: bool, m2: bool, again: bool = False) -> bool:
     """
     pre: 0 <= order <= 4 and 0 <= kind <= 2 and -2 <= a <= 2 and b in (-1, 2, 3, 5) and 1 <= c <= 3
     pre: kind == 1 or (a == 0 and b == 2)
@@ -134,9 +145,9 @@ def rp66v1_to_las(order: int, kind: int, a: int, b: int, c: int, m1: bool, m2: b
     post: _
     """
     order, kind, a, b, c = mark.pick(order, 0, 4), mark.pick(kind, 0, 2), mark.pick(a, -2, 2), mark.pick_from(b, (-1, 2, 3, 5)), mark.pick(c, 1, 3)
-    m1, m2 = mark.pickb(m1), mark.pickb(m2)
+    m1, m2, again = mark.pickb(m1), mark.pickb(m2), mark.pickb(again)
     with mark.untraced():
-        return _rp66(order, kind, a, b, c, m1, m2)
+        return _rp66(order, kind, a, b, c, m1, m2, again)
 
 
 # ---------------------------------------------------------------------------------------------------- LIS
